@@ -89,7 +89,7 @@ def check(ctx):
         ctx.model_violation(r, "decimal / binary arithmetic and literal grammar laws")
     rng = ctx.rng
     script = ["R"]
-    pats = float_patterns(rng, 150000 if ctx.thorough else 700, ctx.thorough)
+    pats = float_patterns(rng, 20000 if ctx.thorough else 700, ctx.thorough)
     nrender = 0
     for i, b in enumerate(pats):
         precs = range(-1, 13) if ((ctx.thorough and i % 40 == 0) or (not ctx.thorough and i % 5 == 0)) else [rng.randrange(-1, 13), rng.choice([0, 1, 10])]
@@ -138,7 +138,22 @@ def check(ctx):
         if i % 300 == 299: script.append("R")
     ctx.extra["render_calls"] = nrender; ctx.extra["literals"] = len(lits); ctx.extra["float_patterns"] = len(pats)
     t = ctx.drive(drv, script, "float")
-    bad = ctx.judge("FloatTrace", [t])
+    traces = [t]
+    if ctx.thorough:
+        # every binary32 pattern x every precision -1..12 goes through igris_f32toa; a native pre-filter (drv_float.cpp,
+        # suspect32) selects what is logged: every call it suspects plus every 300007th call; TLC judges the logged calls
+        sweep = []
+        for k in range(256):
+            sweep += ["R", "Sweep32 %s %d %d 300007" % (",".join(str(p) for p in range(-1, 13)), k << 24, (k + 1) << 24)]
+        ts = ctx.drive(drv, sweep, "sweep32", timeout=3000, env={"VERIF_OP_TIMEOUT": "1800"}, par=16, lines_per_proc=1)
+        calls = 0; suspects = 0
+        for line in open(ts):
+            if line.startswith('{"e":"SweepDone"'):
+                e = json.loads(line); calls += e["calls_m"] * 1000000 + e["calls_lo"]; suspects += e["suspects"]
+        ctx.extra["binary32_sweep_calls"] = calls; ctx.extra["binary32_sweep_prefilter_suspects"] = suspects
+        core.log("sweep32: %d calls, %d selected by the pre-filter" % (calls, suspects))
+        traces.append(ts)
+    bad = ctx.judge("FloatTrace", traces, timeout=3000)
     for b in bad:
         b["driver"] = "drv_float"
     ctx.report(bad)
